@@ -169,6 +169,20 @@ func (w *hWorld) hCall() (r Result, built bool, panicked bool, pmsg string) {
 				pmsg = fmt.Sprint(p)
 			}
 		}()
+		if w.Mode&512 != 0 {
+			// the call goes through a function obtained from Redefine with the converters
+			// alone (it declares the values it needs as its inputs) and is given the values
+			nf, err := w.Funcs[0].Redefine(args[len(w.Vals):]...)
+			if err != nil || nf == nil {
+				vnAssume(false)
+			}
+			if len(w.Log) != 0 {
+				vnAssert(false, "C09.redefine-executes-no-user-code")
+			}
+			vnNoteAppend(" [called through a redefined function]")
+			r = nf.Call(args[:len(w.Vals)]...)
+			return
+		}
 		r = w.Funcs[0].Call(args...)
 	}()
 	// outcome class is iteration-order independent (C05): usable as a cross-validation digest
